@@ -223,7 +223,7 @@ func c04concScenarios() []c04conc {
 	}
 	return []c04conc{
 		// three members, quorum 3: the three votes of one stage point arrive concurrently (one as a ballot with an embedded voteproof)
-		{name: "three-voters", n: 3, th: 67, bound: [2]int{1, 2}, threads: [][]c04ev{
+		{name: "three-voters", n: 3, th: 67, bound: [2]int{1, 1}, threads: [][]c04ev{
 			{v("n0", p1, "A", "acc:32")}, {v("n1", p1, "A", "")}, {v("n2", p1, "A", "")}}},
 		// conflicting votes of one node race with the completing vote
 		{name: "conflicting-votes", n: 3, th: 67, bound: [2]int{1, 2}, setup: []c04ev{v("n0", p1, "A", "")}, threads: [][]c04ev{
